@@ -131,10 +131,10 @@ register_Vec4Array()
 
     class_<FixedArray<IMATH_NAMESPACE::Vec4<T> > > vec4Array_class = FixedArray<IMATH_NAMESPACE::Vec4<T> >::register_("Fixed length array of IMATH_NAMESPACE::Vec4");
     vec4Array_class
-        .add_property("x",&Vec4Array_get<T,0>)
-        .add_property("y",&Vec4Array_get<T,1>)
-        .add_property("z",&Vec4Array_get<T,2>)
-        .add_property("w",&Vec4Array_get<T,3>)
+        .add_property("x",boost::python::make_function(&Vec4Array_get<T,0>,boost::python::with_custodian_and_ward_postcall<0,1>()))
+        .add_property("y",boost::python::make_function(&Vec4Array_get<T,1>,boost::python::with_custodian_and_ward_postcall<0,1>()))
+        .add_property("z",boost::python::make_function(&Vec4Array_get<T,2>,boost::python::with_custodian_and_ward_postcall<0,1>()))
+        .add_property("w",boost::python::make_function(&Vec4Array_get<T,3>,boost::python::with_custodian_and_ward_postcall<0,1>()))
         .def("__setitem__", &setItemTuple<T>)
         .def("min", &Vec4Array_min<T>)
         .def("max", &Vec4Array_max<T>)
